@@ -12,12 +12,12 @@ ID = "C14"
 RULE = ("E-INPUT: linear half = the C13 end-point grid x m in {default,1,2,3,5,7,10,20,50,100} through LinearScale.nice(m), every fourth pair also as a three-entry piecewise domain [a, a+0.375(b-a), b]; "
         "time half = start instants (month ends, week/year boundaries of a leap and a non-leap year x 3 times of day, early "
         "instants, a seeded instant) x spans 10 ms..200 y x both orientations x counts {default,2,5,10,20,50} through "
-        "TimeScale.nice(m). Oracle: orientation kept, no end inward, outward move < 2 tick steps (step measured through the "
+        "TimeScale.nice(m), every third start also as nice(m, skip). Oracle: orientation kept, no end inward, outward move < 2 tick steps (step measured through the "
         "public ticks()), ends round (multiple of step/10; R-CAL boundary of the ticks' calendar class). "
         "Non-trivial: an end point actually moved.")
 ASSUMPTIONS = ["linear roundness tolerance 1e-6 of the step; time ends judged to 1 ms when the ticks are sub-second",
                "TZ=UTC here; zone independence is C18"]
-REQUIRED_COUNTERS = ("linear_cases", "linear_piecewise_cases", "time_cases", "linear_moved", "time_moved", "time_reversed")
+REQUIRED_COUNTERS = ("linear_cases", "linear_piecewise_cases", "time_cases", "time_cases_with_skip_argument", "linear_moved", "time_moved", "time_reversed")
 EPS = 2.220446049250313e-16
 LIN_MS = [None, 1, 2, 3, 5, 7, 10, 20, 50, 100]
 TIME_MS = [None, 2, 5, 10, 20, 50]
@@ -88,14 +88,19 @@ def judge_linear(a, b, m, acc=None, mid=None):
 
 
 # ------------------------------------------------------------------ time
-def judge_time(st, sp, m, rev, acc=None):
+def judge_time(st, sp, m, rev, acc=None, skip=None):
+    """skip: the optional second argument of nice(count, skip); next to a count it has no meaning (the tick method
+    decides interval and skip), the result is judged exactly as for nice(count)."""
     from labella.scale import TimeScale
     en = st + timedelta(milliseconds=sp)
     dom = [en, st] if rev else [st, en]
     try:
         with horizon(10.0):
             s = TimeScale().domain(list(dom))
-            s.nice(m) if m is not None else s.nice()
+            if skip is not None:
+                s.nice(m, skip)
+            else:
+                s.nice(m) if m is not None else s.nice()
             nd = s.domain()
             tk = list(TimeScale().domain(list(dom)).ticks(m) if m is not None else TimeScale().domain(list(dom)).ticks())
     except Hang:
@@ -103,6 +108,10 @@ def judge_time(st, sp, m, rev, acc=None):
     except Exception as e:
         return "EXC:" + type(e).__name__, "time nice(%r) on [%s, %s] raised %r" % (m, dom[0], dom[1], e)
     where = "nice(%r) on [%s, %s] -> [%s, %s]" % (m, dom[0], dom[1], nd[0], nd[1])
+    if skip is not None:
+        where = "nice(%r, %r) on [%s, %s] -> [%s, %s]" % (m, skip, dom[0], dom[1], nd[0], nd[1])
+        if acc is not None:
+            acc.counters["time_cases_with_skip_argument"] += 1
     if acc is not None:
         acc.counters["time_cases"] += 1
         if rev:
@@ -201,6 +210,14 @@ def run_shard(shard):
                     if bad:
                         acc.violation({"kind": "time", "start": st, "span_ms": sp, "m": m, "rev": rev}, bad[0], bad[1],
                                       order=(1, sp, m or 0, int(rev), cal.ms_of(st)))
+            if (si // shard["mod"]) % 3 == 0:  # every third start: the two-argument form nice(count, skip)
+                for m, skip in ((5, 3), (10, 7)):
+                    bad = judge_time(st, sp, m, False, acc, skip)
+                    acc.evals += 1
+                    acc.trans += 1
+                    if bad:
+                        acc.violation({"kind": "time", "start": st, "span_ms": sp, "m": m, "rev": False, "skip": skip}, bad[0], bad[1],
+                                      order=(1, sp, m, 2, cal.ms_of(st)))
     acc.sample({"kind": "time", "start": st, "span_ms": sp, "m": m, "rev": rev})
     return acc
 
@@ -208,7 +225,7 @@ def run_shard(shard):
 def replay(case):
     if case["kind"] == "lin":
         return judge_linear(case["a"], case["b"], case["m"], None, case.get("mid"))
-    return judge_time(case["start"], case["span_ms"], case["m"], case["rev"])
+    return judge_time(case["start"], case["span_ms"], case["m"], case["rev"], None, case.get("skip"))
 
 
 def snippet(case):
